@@ -119,6 +119,10 @@ def wakeup_paths(chk, m, K, Kconst):
                    p.ret_inst.loc, fn.name)
             continue
         missing = [q for q in need if facts[q] is not True]
+        if missing == ["timerq"] and is_unbounded and _not_after_head(p, r, K):
+            # a sleeper exists, but the path has compared the returned time with its due time (both as distances from now) and
+            # the returned time is not the later one
+            missing = []
         if missing:
             # emptiness decided from kernel state this rule does not interpret (a counter of runnable fibres, a flag)?
             known = {"current", "state", "now", "runq", "atomic_runq", "timerq", "taint_flags"}
@@ -135,6 +139,47 @@ def wakeup_paths(chk, m, K, Kconst):
                 "" if not missing else "; on this path %s is not known to be empty: a fibre made runnable there (for instance by an "
                 "interrupt after the drain) would wait for the timer / for ever" % missing), p.ret_inst.loc, fn.name)
     chk.expect("U1", "paths of get_next_wakeup", n, 3)
+
+
+def _not_after_head(p, r, K):
+    """The path's conditions entail (r - now) <= (head.duetime - now) as signed differences, head being the timer queue's first fibre."""
+    def is_now(x):
+        x = strip_casts(x)
+        return x[0] == "ld" and x[1] == K.kptr("now")
+
+    def dist_of(x):
+        x = strip_casts(x)
+        if x[0] == "call" and x[1] == "cyclecmp32" and is_now(x[2][1]):
+            return strip_casts(x[2][0])
+        if x[0] == "b" and x[1] == "sub" and is_now(x[4]):
+            return strip_casts(x[3])
+        return None
+
+    def is_head(t):
+        if t[0] != "ld" or ptr_parts(t[1])[1] not in (K.fibre["duetime"][0] - K.link_off, K.fibre["duetime"][0]):
+            return False
+        root = ptr_parts(t[1])[0]
+        return (root[0] == "call" and root[1] == "list_peek" and K.queue_arg(root[2][0]) == "timerq") or \
+               (root[0] == "ld" and root[1] == K.kptr("timerq"))
+    for c, taken, inst in p.conds:
+        cc = strip_casts(c)
+        if cc[0] != "icmp" or cc[1] not in ("slt", "sle", "sgt", "sge"):
+            continue
+        a, b = dist_of(cc[2]), dist_of(cc[3])
+        if a is None or b is None:
+            continue
+        if a == r and is_head(b):
+            swap = False
+        elif b == r and is_head(a):
+            swap = True
+        else:
+            continue
+        holds = {"slt": lambda x, y: x < y, "sle": lambda x, y: x <= y, "sgt": lambda x, y: x > y, "sge": lambda x, y: x >= y}[cc[1]]
+        # the condition must exclude every case in which the returned time (distance x) is later than the head's (distance y)
+        if not any((holds(y, x) if swap else holds(x, y)) == bool(taken)
+                   for x, y in ((1, 0), (5, -3), (0x7fffffff, -0x80000000), (0, -1), (-1, -2), (0x7fffffff, 0x7ffffffe))):
+            return True
+    return False
 
 
 def check_main_loop_clock(chk, mp):
